@@ -81,7 +81,7 @@ pub struct SlateV4 {
 	/// as the transaction progresses
 	#[serde(
 		serialize_with = "secp_ser::as_hex",
-		deserialize_with = "secp_ser::blind_from_hex"
+		deserialize_with = "ser::blind_from_hex"
 	)]
 	#[serde(default = "default_offset_zero")]
 	#[serde(skip_serializing_if = "offset_is_zero")]
